@@ -126,7 +126,10 @@ Definition realize (hist : list frame) (e : eframe) : frame :=
 Inductive setup :=
 | SPlain
 | SKeyed (k ivA ivB : bytes) (preAB preBA : list bytes)   (* cleartext messages each way, then SetSymmetricKey on both *)
-| SBlobs (a b : blob).                                     (* both ends built by NewStreamWithCryptoState *)
+| SBlobs (a b : blob)                                      (* both ends built by NewStreamWithCryptoState *)
+| SRelay (k ivA ivB : bytes)                               (* cleartext phase through an editing relay, then keys *)
+         (sentAB : list bytes) (seenAB : list (N * bytes))   (* A sends messages; B is handed these (flag, payload) frames *)
+         (sentBA : list bytes) (seenBA : list (N * bytes)).
 
 Inductive step :=
 | StPhase (a_sends : bool) (sops : list sop) (serr : list N) (wire : list xw)
@@ -154,6 +157,23 @@ Fixpoint send_clear (s r : stream) (msgs : list bytes) : stream * stream * bool 
       end
   end.
 
+Fixpoint send_only (s : stream) (msgs : list bytes) : stream * bool :=
+  match msgs with
+  | [] => (s, true)
+  | m :: rest => match send_frame s m EndFlagComplete with
+                 | (s1, SOk _) => send_only s1 rest
+                 | (s1, SErr _) => (s1, false)
+                 end
+  end.
+Fixpoint recv_raw (r : stream) (fs : list (N * bytes)) : stream * bool :=
+  match fs with
+  | [] => (r, true)
+  | (fl, d) :: rest => match recv_frame_we r {| f_flag := fl; f_body := Raw d |} with
+                       | (r1, SOk _) => recv_raw r1 rest
+                       | (r1, SErr _) => (r1, false)
+                       end
+  end.
+
 Definition init_world (su : setup) : option world :=
   match su with
   | SPlain => Some {| wa := new_stream; wb := new_stream; hab := []; hba := []; wkey := []; pab := []; pba := [] |}
@@ -162,6 +182,16 @@ Definition init_world (su : setup) : option world :=
       let '(b2, a2, ok2) := send_clear b1 a1 preBA in
       match set_key a2 k ivA, set_key b2 k ivB with
       | SOk a3, SOk b3 => if ok1 && ok2 then Some {| wa := a3; wb := b3; hab := []; hba := []; wkey := k; pab := []; pba := [] |} else None
+      | _, _ => None
+      end
+  | SRelay k ivA ivB sentAB seenAB sentBA seenBA =>
+      let '(a1, ok1) := send_only new_stream sentAB in
+      let '(b1, ok2) := recv_raw new_stream seenAB in
+      let '(b2, ok3) := send_only b1 sentBA in
+      let '(a2, ok4) := recv_raw a1 seenBA in
+      match set_key a2 k ivA, set_key b2 k ivB with
+      | SOk a3, SOk b3 => if ok1 && ok2 && ok3 && ok4
+                          then Some {| wa := a3; wb := b3; hab := []; hba := []; wkey := k; pab := []; pba := [] |} else None
       | _, _ => None
       end
   | SBlobs ba bb =>
